@@ -39,6 +39,13 @@ def same(a, b, leaf_eq='is', path='$'):
         return None
     if tn == 'PyTreeAccessor' or (ta.__module__ == 'optree.accessor'):
         return None if a == b and repr(a) == repr(b) else '%s: accessor %r != %r' % (path, a, b)
+    if hasattr(ta, '__optree_dataclass_fields__'):
+        import dataclasses as _dc
+        for f in _dc.fields(a):
+            d = same(getattr(a, f.name), getattr(b, f.name), leaf_eq, '%s.%s' % (path, f.name))
+            if d:
+                return d
+        return None
     if isinstance(a, U.Node):
         if len(a.children) != len(b.children):
             return '%s: %d != %d children' % (path, len(a.children), len(b.children))
